@@ -54,18 +54,22 @@ Definition omsg_eqb (a b : option msg) : bool :=
 Definition hid (s : str) : str := s.
 
 (** store the messages one after the other; remember the blob table each one met *)
-Fixpoint stores (bs : blobs) (ms : list msg) : blobs * list (blobs * stored) :=
+Fixpoint stores (faults : list bool) (bs : blobs) (ms : list msg) : blobs * list (blobs * stored) :=
   match ms with
   | [] => (bs, [])
   | m :: r =>
-      let '(bs', st) := store hid bs m in
-      let '(bsf, sts) := stores bs' r in
+      let '(bs', st) := store hid faults bs m in     (* the same schedule for every message *)
+      let '(bsf, sts) := stores faults bs' r in
       (bsf, (bs, st) :: sts)
   end.
 
 (** what FETCH returns for each message after all of them were stored *)
 Definition results (ms : list msg) : list (option msg) :=
-  let '(bsf, sts) := stores [] ms in map (fun x => fetch bsf (snd x)) sts.
+  let '(bsf, sts) := stores [] [] ms in map (fun x => fetch bsf (snd x)) sts.
+
+(** every write to the blobs table fails while the messages are stored *)
+Definition results_faulty (ms : list msg) : list (option msg) :=
+  let '(bsf, sts) := stores (repeat true 64) [] ms in map (fun x => fetch bsf (snd x)) sts.
 
 Definition spec_ok (m : msg) (o : option msg) : bool :=
   match o with Some m' => msg_equiv m m' | None => false end.
